@@ -251,3 +251,45 @@ def check_c16(tier):
                             "positions are only required to be pairwise distinct",
                             "gherkin crate trusted for parsing"],
             "wall_s": time.time() - t0}
+
+
+# ---------------------------------------------------------------------------
+# C19
+# ---------------------------------------------------------------------------
+
+def check_c19(tier):
+    t0 = time.time()
+    cfg = os.path.join(WORK, "c19_gen.cfg")
+    _cfg(cfg, (), invs=("Dump", "Sane"))
+    r = tlc("Gen_Codegen.tla", cfg, workers=1, timeout=600, tag="c19gen")
+    require_ok(r, "Gen_Codegen")
+    if r["violated"]:
+        raise ToolError("Codegen.tla: the zoo description is not sane (specification defect)")
+    vectors = tlc_lines(r["out"], "REPLAY")[:1]
+    vectors[0]["id"] = "zoo"
+    recs, vs = validate(vectors, "zoo", "Trace_Codegen.tla", "c19")
+    violations = []
+    for v in vs:
+        for b in v["bad"]:
+            violations.append({"sig": "C19:dispatch:" + b["want"]["res"],
+                               "what": f"{b['kw']} {b['text']!r}: got {b['got']} {b['call']!r}, "
+                                       f"expected {b['want']['res']} {b['want']['call']!r}",
+                               "replay": {"property": "C19", "query": b}})
+    results = recs[0]["results"]
+    queries = {q["id"]: q for q in recs[0]["queries"]}
+    nontrivial = sum(1 for x in results if x["res"] != "notfound")
+    cov = {
+        "evaluations": len(results), "distinct_nontrivial": nontrivial,
+        "rule": "every (keyword, text) pair of 3 keywords x the text pool of Codegen.tla is looked up in "
+                "ZWorld::collection() and executed on a fresh World; non-trivial if some definition matched "
+                "(invoked or failed)",
+        "zoo_functions": 10, "attributes": 11,
+        "samples": [{"query": queries[x["id"]], "real": x} for x in results if x["res"] != "notfound"][:6],
+        "tlc_sanity": "LiteralsMatchOnlyThemselves, OneDefPerAttribute, NoAmbiguityInZoo hold for the description",
+    }
+    return {"level": "exploration", "coverage": cov, "violations": violations,
+            "assumptions": ["C19 quantifies over programs: only this finite, compiled zoo is explored",
+                            "the match column of Codegen.tla is the hand-derived semantics of the attribute as "
+                            "written (literal = identical text; regex; Cucumber Expression)",
+                            "compile-fail behaviour of the macros is out of scope"],
+            "wall_s": time.time() - t0}
